@@ -109,9 +109,9 @@ Qed.
 
 (* C12, last sentence.  [expected_data] is "the given keywords minus the recognised control keywords" (plus the entity id
    and the single positional parameter for entity-method calls), sorted by keyword *)
-Theorem outgoing_exact s task_ctx target nargs nparams kws :
+Theorem outgoing_exact s task_ctx target honly nargs nparams kws :
   NoDup (map kw_key kws) ->
-  match outgoing all_off s task_ctx target nargs nparams kws with
+  match outgoing all_off s task_ctx target honly nargs nparams kws with
   | ODelivered d _ => d = expected_data s nargs nparams kws
   | OTypeError => args_misuse s nargs nparams = true
   | OValidation => True
@@ -125,9 +125,9 @@ Proof.
   assert (Hrec : filter (fun x => negb (rec_tbl (table s) x)) kws = filter (fun x => negb (recognised s x)) kws) by reflexivity.
   rewrite Hrec.
   destruct s.
-  - destruct (ha_call_off target (kw_sort (filter (fun x => negb (recognised SiteCall x)) kws)) (helper target h)) as [->|(rr & ->)]; auto.
+  - destruct (ha_call_off target (kw_sort (filter (fun x => negb (recognised SiteCall x)) kws)) (helper honly h)) as [->|(rr & ->)]; auto.
   - destruct (N.eqb nargs 0); cbn [negb]; [|reflexivity].
-    destruct (ha_call_off target (kw_sort (filter (fun x => negb (recognised SiteName x)) kws)) (helper target h)) as [->|(rr & ->)]; auto.
+    destruct (ha_call_off target (kw_sort (filter (fun x => negb (recognised SiteName x)) kws)) (helper honly h)) as [->|(rr & ->)]; auto.
   - destruct (N.eqb nargs 1 && N.eqb nparams 1) eqn:E1.
     + match goal with |- context [ha_call all_off target ?d ?hh] => destruct (ha_call_off target d hh) as [->|(rr & ->)]; auto end.
     + destruct (N.eqb nargs 0); cbn [negb andb]; [|reflexivity].
@@ -147,6 +147,6 @@ Example tables_now :
 Proof. repeat split; reflexivity. Qed.
 
 Example outgoing_instance :
-  outgoing all_off SiteName false SrOpt 0 1 [mk_kw 40 4 7; mk_kw 2 2 1; mk_kw 3 4 1]
+  outgoing all_off SiteName false SrOpt false 0 1 [mk_kw 40 4 7; mk_kw 2 2 1; mk_kw 3 4 1]
   = ODelivered [mk_kw 3 4 1; mk_kw 40 4 7] false.
 Proof. reflexivity. Qed.
